@@ -12,6 +12,16 @@ import (
 const stuffedKey = "STUFFEDPLAINTEXT"
 
 func genC11(r *Rand, tier string) *Case {
+	if r.Chance(1, 40) {
+		// the SSLRequest of a connection that was accepted just before Close: one
+		// byte, 'S' with certificates and 'N' without, as always
+		tlsKind := r.Pick("certs", "certs", "empty", "")
+		steps := []Step{{Msgs: []pgwire.FMsg{{K: "ssl"}}}}
+		if tlsKind != "certs" && r.Bool() {
+			steps = append(steps, Step{Msgs: []pgwire.FMsg{startupMsg("u", "d")}})
+		}
+		return genClosedAtAccept(r, "ssl-request-while-closing", ServerCfg{Limit: 4096, TLS: tlsKind}, steps)
+	}
 	canary := fmt.Sprintf("CANARY%08x", uint32(r.U64()))
 	c := &Case{Server: ServerCfg{Limit: r.PickInt(1000, 4096, 4096, 65536), TLS: r.Pick("certs", "certs", "certs", "empty", "")}, Programs: map[string]*Program{}}
 	if c.Server.TLS != "" && r.Chance(1, 3) {
@@ -242,6 +252,27 @@ func checkC11(x *Exec, c *Case) ([]Violation, bool) {
 		viol = append(viol, Violation{Prop: "C11", Rule: rule, Sig: rule + " " + c.Variant, Detail: fmt.Sprintf("[%s] %s", c.Variant, detail)})
 	}
 	canary, _ := c.Expect["canary"].(string)
+	if c.Variant == "ssl-request-while-closing" {
+		r := x.Run(c)
+		c.Sched.Schedule = r.Schedule
+		cs := r.Conns[0]
+		if r.HoldsForced > 0 || r.Accepts == 0 {
+			x.Probe("ssl_request_while_closing_inconclusive")
+			return nil, false
+		}
+		x.Probe("ssl_request_while_closing")
+		want := byte('N')
+		if c.Server.TLS == "certs" {
+			want = 'S'
+		}
+		if len(cs.Out) == 0 || cs.Out[0] != want {
+			add("ssl-answer", fmt.Sprintf("the connection was accepted just before Server.Close signalled the shutdown; its SSLRequest was answered with %q, want the single byte %q", trunc(string(cs.Out), 12), string(want)))
+		} else if want == 'N' {
+			t := ParseOut(cs)
+			viol = append(viol, GrammarViolation("C11", 0, t)...)
+		}
+		return viol, true
+	}
 	if c.Conns[0].TLS == nil {
 		// no certificates: T1 ('N') and T5 (plaintext continues), inline engine
 		viol2, r, _ := modelCheck("C11", x, c)
@@ -384,7 +415,7 @@ func checkC11(x *Exec, c *Case) ([]Violation, bool) {
 func init() {
 	register(&Prop{
 		ID: "C11", Level: "exploration", QuickS: 30, ThoroughS: 480,
-		Rule: "seeded TLS scenarios: server configured without TLSConfig / with an empty TLSConfig / with a certificate (1 in 8: expired or not yet valid at the TLS stack's clock - nobody verifies it); client behaviours: SSLRequest then a real crypto/tls handshake (TLS 1.2 or 1.3) then a generated session (simple and extended queries, failing handlers, Terminate) inside TLS; SSLRequest with a plaintext startup+Query stuffed behind it in the same or in the next segment; SSLRequest twice; a second SSLRequest inside TLS; CancelRequest after the upgrade; peer vanishing after 1-60 handshake bytes; against the certificate-less configs SSLRequest -> 'N' -> fresh plaintext startup, SSLRequest twice, or CancelRequest. The TLS client is a real goroutine and, like the server goroutine, a task of the seeded scheduler; both byte directions are tapped below TLS. Oracle: the answer is exactly one byte ('S' iff certificates), everything the server writes afterwards parses as TLS records and neither tapped direction contains the per-run canary carried by every query text and command tag, the decrypted stream and the callback trace equal those of the same session run in plaintext on an identically configured server, stuffed plaintext never reaches a callback, cancel/odd negotiations get no reply and no callback and the connection is closed, the run terminates; every case is non-trivial; distinct = distinct case content hashes; configuration routes (TLSConfig option, exported field assigned after NewServer, certificate added afterwards); clients that let 50 ms - 1 h of simulated time pass between steps (the transport honours deadlines against the fake clock); variant tls-close-during-command: Server.Close pinned inside a running command of the TLS session, compared with the plaintext equivalent under the same Close",
+		Rule: "seeded TLS scenarios: server configured without TLSConfig / with an empty TLSConfig / with a certificate (1 in 8: expired or not yet valid at the TLS stack's clock - nobody verifies it); client behaviours: SSLRequest then a real crypto/tls handshake (TLS 1.2 or 1.3) then a generated session (simple and extended queries, failing handlers, Terminate) inside TLS; SSLRequest with a plaintext startup+Query stuffed behind it in the same or in the next segment; SSLRequest twice; a second SSLRequest inside TLS; CancelRequest after the upgrade; peer vanishing after 1-60 handshake bytes; against the certificate-less configs SSLRequest -> 'N' -> fresh plaintext startup, SSLRequest twice, or CancelRequest. The TLS client is a real goroutine and, like the server goroutine, a task of the seeded scheduler; both byte directions are tapped below TLS. Oracle: the answer is exactly one byte ('S' iff certificates), everything the server writes afterwards parses as TLS records and neither tapped direction contains the per-run canary carried by every query text and command tag, the decrypted stream and the callback trace equal those of the same session run in plaintext on an identically configured server, stuffed plaintext never reaches a callback, cancel/odd negotiations get no reply and no callback and the connection is closed, the run terminates; every case is E2 variant: the SSLRequest of a connection accepted just before Server.Close signalled the shutdown is answered with the same single byte; non-trivial; distinct = distinct case content hashes; configuration routes (TLSConfig option, exported field assigned after NewServer, certificate added afterwards); clients that let 50 ms - 1 h of simulated time pass between steps (the transport honours deadlines against the fake clock); variant tls-close-during-command: Server.Close pinned inside a running command of the TLS session, compared with the plaintext equivalent under the same Close",
 		Components: []string{
 			"real: Handshake/potentialConnUpgrade/sslUnsupported, crypto/tls server and client (deterministic Rand and Time), the whole serving path on top of the tls.Conn",
 			"stub: raw duplex connection (simulated, tapped, every Read/Write of either party a schedule point), certificate (ed25519, generated in-process from a fixed seed), handler programs",
